@@ -948,6 +948,36 @@ pub fn space_n(full: bool, depth: usize, f: &mut dyn FnMut(u64, &[u8])) -> u64 {
     idx
 }
 
+/// SP: prefix · loop around <= 1 statement · one statement *after* the loop · epilogue. Values
+/// computed inside a conditional block and (wrongly) reused after it need code after the block.
+pub fn space_sp(f: &mut dyn FnMut(u64, &[u8])) -> u64 {
+    let stmts = all_stmts();
+    let mut pieces: Vec<Vec<u8>> = vec![Vec::new()];
+    for s in &stmts {
+        let mut v = Vec::new();
+        s.emit(&mut v);
+        pieces.push(v);
+    }
+    let mut idx = 0u64;
+    let mut prog = Vec::new();
+    for body in &pieces {
+        for post in &pieces[1..] {
+            for prefix in PREFIXES {
+                for shape in SHAPES {
+                    prog.clear();
+                    prog.extend_from_slice(prefix.as_bytes());
+                    emit_loop(&mut prog, shape, 0, body);
+                    prog.extend_from_slice(post);
+                    prog.extend_from_slice(EPILOGUE.as_bytes());
+                    f(idx, &prog);
+                    idx += 1;
+                }
+            }
+        }
+    }
+    idx
+}
+
 /// K: the repository's own corpus, copied into /verif/corpus (name \t program per line).
 pub fn space_k() -> Vec<(String, Vec<u8>)> {
     let path = format!("{}/corpus/k_tests.txt", crate::verif_dir());
